@@ -283,8 +283,11 @@ pub fn extra_stages(prop: &str, tier: Tier, seed: u64, _scratch: &Path) -> Extra
     let seg = |world: &'static str, n: u64| Segment { world, from: 0, to: n * scale, sweep: false, stride: 1, offset: 0 };
     let sweep_len = <crate::worlds::byvalue::ByValueWorld as World>::sweep_len();
     let stride = if quick { 3 } else { 1 };
+    // the destructure! cells sit at the end of the sweep list and always run under Miri
+    let n_destr = <crate::worlds::byvalue::ByValueWorld as World>::sweep_names().iter().filter(|n| n.starts_with("destructure/")).count() as u64;
     let segments = vec![
-        Segment { world: "byvalue", from: 0, to: sweep_len, sweep: true, stride, offset: seed % stride },
+        Segment { world: "byvalue", from: 0, to: sweep_len - n_destr, sweep: true, stride, offset: seed % stride },
+        Segment { world: "byvalue", from: sweep_len - n_destr, to: sweep_len, sweep: true, stride: 1, offset: 0 },
         seg("byvalue", 64),
         seg("parser", 32),
         seg("splits", 32),
